@@ -3,7 +3,7 @@ open Drv
 
 /-- all operations known to the driver (one list per `Drv/Cxx.lean`) -/
 def allOps : List (String × (List String → String)) :=
-  opsC17 ++ opsCorr ++ opsTanProj ++ opsC10 ++ opsC16 ++ opsC06 ++ opsC07 ++ opsC09 ++ opsC12 ++ opsC11 ++ opsC19 ++ opsC08 ++ opsC15 ++ opsC13 ++ opsChipBorder ++ opsSphHull ++ opsGroupCat
+  opsC17 ++ opsCorr ++ opsTanProj ++ opsC10 ++ opsC16 ++ opsC06 ++ opsC07 ++ opsC09 ++ opsC12 ++ opsC11 ++ opsC19 ++ opsC08 ++ opsC15 ++ opsC13 ++ opsChipBorder ++ opsSphHull ++ opsGroupCat ++ opsGroupAlign
 
 /-- one line in, one line out: `<op> <mode> <args…>`; the mode token selects the scalar type
 (`Q` = exact rationals, `F` = IEEE doubles) for numeric operations -/
